@@ -9,6 +9,7 @@ import (
 )
 
 func init() {
+	vfHarnesses["C11_priority_reentrant"] = vfhC11PriorityReentrant
 	vfHarnesses["C11_stop_deep"] = vfhC11StopDeep
 	vfHarnesses["C11_stop_deep_full"] = vfhC11StopDeepFull
 	vfHarnesses["C11_box_lemmas"] = vfhC11BoxLemmas
@@ -408,6 +409,50 @@ func vfStopDeep(maxSize, maxK int) {
 		vfReach("complete")
 	} else {
 		vfReach("stopped")
+	}
+	vfReach("end")
+}
+
+// C11: a search may be started from inside the callback of another search on
+// the same tree (after earlier searches have completed): the outer search still
+// visits every record exactly once.
+func vfhC11PriorityReentrant() {
+	var n int
+	switch vfInt("size", 0, 2) {
+	case 0:
+		n = 3
+	case 1:
+		n = 6
+	default:
+		n = 20
+	}
+	items := make([]BulkItem, n)
+	for i := range items {
+		x, y := float64(i%5)*3, float64(i/5)*3
+		items[i] = BulkItem{Box: Box{MinX: x, MinY: y, MaxX: x + 1, MaxY: y + 1}, RecordID: i}
+	}
+	qx := vfLattice("qx", 4) // any position along the row (decided over the reals)
+	q := Box{MinX: qx, MinY: -1, MaxX: qx, MaxY: -1}
+	q2 := Box{MinX: 20, MinY: 20, MaxX: 21, MaxY: 21}
+	t := BulkLoad(items)
+	// earlier, completed searches
+	_ = t.PrioritySearch(q2, func(int) error { return nil })
+	_, _ = t.Nearest(q)
+	seen := make([]int, n)
+	err := t.PrioritySearch(q, func(id int) error {
+		vfAssert(id >= 0 && id < n, "record id is one of the loaded ids")
+		seen[id]++
+		// a nested query on the same tree
+		nid, found := t.Nearest(q2)
+		vfAssert(found && nid >= 0 && nid < n, "the nested query finds a record")
+		inner := 0
+		_ = t.PrioritySearch(q2, func(int) error { inner++; return nil })
+		vfAssert(inner == n, "the nested search visits every record")
+		return nil
+	})
+	vfAssert(err == nil, "no error")
+	for i := range seen {
+		vfAssert(seen[i] == 1, "the outer search visits every record exactly once despite the nested searches")
 	}
 	vfReach("end")
 }
